@@ -25,8 +25,8 @@ def run(ctx, intensify=False):
         res.samples += o["samples"]
         for k, v in o["kinds"].items():
             kinds[k] = kinds.get(k, 0) + v
-    res.suites.append({"name": "K-json", "cases": corr, "observations": cases, "disagreements": dis, "inconclusive": 0,
-                       "distribution": {"systems": kinds}})
+    res.suites.append({"name": "K-json", "cases": corr, "observations": cases, "disagreements": dis,
+                       "inconclusive": sum(o.get("inconclusive", 0) for o in outs), "distribution": {"systems": kinds}})
     res.evaluations = cases
     res.distinct_nontrivial = cases
     res.rule = ("systems containing every public class (services, GPU and cloud servers) and random generated systems with "
